@@ -108,7 +108,7 @@ def make_real_strategy(name, opts):
 
 
 def play_real(name, opts, kind, data, decider, abort_cls=RuntimeError, fail_at=None, max_tests=400, cut=None, touch=None,
-              vanish=False, answers=(True, False)):
+              vanish=False, answers=(True, False), touch_head=False):
     """one run() of a real strategy on a real file under `decider(k, disk)`.
     fail_at=j makes the j-th rmslice() call raise (an internal strategy failure).
     Returns (Observed, orig_fields, run-as-script)"""
@@ -125,7 +125,8 @@ def play_real(name, opts, kind, data, decider, abort_cls=RuntimeError, fail_at=N
                 s.path.rename(s.path.with_name("staged-" + s.path.name))
             if touch is not None and out != "x" and touch(k):
                 # the program under test rewrites its input in place (a formatter, a tool that normalises line ends)
-                s.path.write_bytes(disk + b"\n// rewritten by the tool under test\n")
+                s.path.write_bytes((b"// header rewritten too\n" + disk[:3].upper() + disk[3:] if touch_head else disk)
+                                   + b"\n// rewritten by the tool under test\n")
             return out
 
         s.test.decider = dec
